@@ -91,6 +91,8 @@ class Oracle:
         elif a.startswith("send:"):
             if self.conn:
                 self.sendq.append(a[5:])
+        elif a.startswith("clk:"):
+            self.clock += int(a[4:])        # the callback takes time: later handlers of the pass really run later
 
     def invoke(self, r, what):
         self.invocations += 1
@@ -465,6 +467,51 @@ def gen_timed(chk):
             if rng.random() < 0.15:
                 parts.append(rng.choice(["state d", "state c", "neg 0", "neg 1", "st iq - - - -"]))
         cases.append((";".join(parts), "timed-script"))
+    # slow callbacks: the virtual clock advances inside a callback (clk:<ms>), so the handlers served later in the
+    # same pass really run later; each must be stamped with the time at which it ran and tested against that time
+    cases.append(("def 0 t 1000 100 0 u;def 1 t 2000 101 0 u;beh 101 0 1:clk:600;add 0;add 1;clock 1000;fire;clock 1000;fire;"
+                  "clock 400;fire;clock 600;fire;clock 400;fire", "timed-slow"))
+    cases.append(("def 0 g 1000 200 0;def 1 t 2000 101 0 u;beh 101 0 1:clk:600;add 0;add 1;clock 2000;run;clock 400;run;clock 600;run", "timed-slow"))
+    cases.append(("def 0 t 10 100 0 u;def 1 t 10 101 0 u;beh 101 0 1:clk:10;add 0;add 1;clock 5;run;clock 5;run;clock 5;run;clock 5;run", "timed-slow"))
+    for _ in range(8000 if chk.tier == "thorough" else 1500):
+        n = rng.randint(2, 4)
+        base = rng.choice([10, 20, 1000])
+        parts = []
+        for k in range(n):
+            kind = rng.choice("tttg")
+            P = rng.choice([base, base, 2 * base, base // 2, 0])
+            if kind == "t":
+                parts.append("def %d t %d %d 0 %s" % (k, P, 100 + k, rng.choice("uuy")))
+            else:
+                parts.append("def %d g %d %d 0" % (k, P, 200 + k))
+            cbid = (100 if kind == "t" else 200) + k
+            ents = []
+            for _ in range(rng.randint(1, 2)):
+                al = []
+                if rng.random() < 0.7:
+                    al.append("clk:%d" % rng.choice([1, base // 2, base * 6 // 10, base, base + 1]))
+                if rng.random() < 0.15:
+                    al.append("add:%d" % rng.randrange(n))
+                ents.append("%d%s" % (rng.choice((1, 1, 1, 0)), (":" + ",".join(al)) if al else ""))
+            parts.append("beh %d 0 %s" % (cbid, "/".join(ents)))
+        order = list(range(n))
+        rng.shuffle(order)
+        parts += ["add %d" % k for k in order]
+        for _ in range(rng.randint(3, 8)):
+            parts.append("clock %d" % rng.choice([0, 1, base // 2, base * 4 // 10, base - 1, base, base + 1, 2 * base]))
+            parts.append(rng.choice(["fire", "run", "run2"]))
+            if rng.random() < 0.08:
+                parts.append(rng.choice(["open", "reset 0", "state d", "state c"]))
+        cases.append((";".join(parts), "timed-slow"))
+    # slow stanza / id callbacks between timed passes
+    for _ in range(1000 if chk.tier == "thorough" else 150):
+        P = rng.choice([10, 20])
+        parts = ["def 0 t %d 100 0 u" % P, "def 1 s - - - 0 0 u", "def 2 i q1 1 0 u", "def 3 t %d 101 0 u" % P,
+                 "beh 0 0 1:clk:%d" % rng.choice([1, 5, 10]), "beh 1 0 1:clk:%d,add:3" % rng.choice([1, 5, 10]),
+                 "beh 101 0 1:clk:%d" % rng.choice([0, 3, 6]), "add 0", "add 1", "add 2"]
+        for _ in range(rng.randint(3, 7)):
+            parts.append(rng.choice(["st iq - - q1 -", "st iq - - - -", "clock %d" % rng.choice([1, 5, 9, 10, 11]), "run", "fire"]))
+        cases.append((";".join(parts), "timed-slow"))
     return cases
 
 
@@ -572,12 +619,13 @@ def run(chk):
                 "sampled each) plus sampled 3x2x3; random larger programs (<=6 definitions of all kinds, duplicates, same "
                 "callback/different userdata, system handlers, per-call behaviours, neg/state toggles, sysdel, re-arm); timed: "
                 "periods 0/1/2/100/15000 with clock steps period-1/period/period+1, re-arm by stream start and "
-                "handler_reset_timed, disconnected/connecting/connected, context-wide, gating, timed scripts; self-deleting "
+                "handler_reset_timed, disconnected/connecting/connected, context-wide, gating, timed scripts, slow callbacks "
+                "(clock advancing inside a callback, periods around the delays); self-deleting "
                 "handlers for UAF tracking. non-trivial = distinct scenario with at least one handler invocation")
     chk.assumptions = [
         "C11 model: one connection per context; callbacks are scripted (return value + add/delete/send actions) and cannot "
-        "change conn->state or stream_negotiation_completed inside a dispatch; the clock does not move inside one pass and "
-        "never runs backwards (time_elapsed is an unsigned subtraction)",
+        "change conn->state or stream_negotiation_completed inside a dispatch; the clock moves inside a pass only through the "
+        "scripted `clk` action of a callback and never runs backwards (time_elapsed is an unsigned subtraction)",
         "C11 driver pokes conn->state / stream_negotiation_completed / sm_state directly (common.h), select/send/gettimeofday "
         "are ld --wrap stand-ins; ASan decides use-after-free",
         "C11 oracle: independent Python statement over the registration history; order of timed handlers inside one pass "
